@@ -18,18 +18,19 @@ EXTRA_TARGETS = ["drv_c19"]
 SB = "/tmp/verif-c19-0000000"
 MAX_PATH = 260
 HENV = {"ASAN_OPTIONS": "detect_leaks=0:abort_on_error=0:allocator_may_return_null=1"}
-_counter = [0]
+import itertools
+_counter = itertools.count(1)       # next() is atomic: harness runs are started from worker threads
 
 
 # ----------------------------------------------------------------------------- running
 def _suffix():
-    _counter[0] += 1
-    return "%07d" % ((os.getpid() % 10000) * 1000 + _counter[0] % 1000)
+    """sandbox number, unique among the harness processes that can be alive at the same time"""
+    return "%07d" % ((os.getpid() % 10000) * 1000 + next(_counter) % 1000)
 
 
 def run_harness(ctx, h, script):
     suf = _suffix()
-    lines = [l for l in script.splitlines() if l and not l.startswith("env")]
+    lines = [l for l in script.splitlines() if l.strip() and not l.startswith("env") and not l.startswith("#")]
     rc, impl, err = ctx.run_lines(h, "\n".join(lines) + "\n", timeout=120, env=HENV, args=(suf,))
     shutil.rmtree("/tmp/verif-c19-" + suf, ignore_errors=True)
     return lines, rc, impl, err
@@ -719,6 +720,7 @@ def oracle(ops, impl):
         if t[0] == "home":
             k = int(t[1])
             home = None if k < 0 else (SBb if k == 0 else SBb + b"/" + b"h" * min(k, 250))
+            tree = trees[-1] if trees else None      # `home k` may create the HOME directory
             continue
         if t[0] == "tight":
             treg, ten = int(t[1].split("=")[1]), int(t[2].split("=")[1])
@@ -770,6 +772,9 @@ def oracle(ops, impl):
         # sub-blocks: one per processed message (terminated by its status line)
         subs, cur = [], []
         for l in blk:
+            if l.startswith("#t ") and not cur and subs:
+                subs[-1].append(l)          # the tree hash printed after a status line belongs to it
+                continue
             cur.append(l)
             if l.startswith("= "):
                 subs.append(cur)
